@@ -1141,7 +1141,8 @@ pub extern "C" fn send_time_limit(fd: c_int) -> u64 {
                 panic!("getsockopt failed: {error}");
             }
             let time_limit = get_time_limit(&tv);
-            assert!(SEND_TIME_LIMIT.insert(fd, time_limit).is_none());
+            // another thread may have cached the same value meanwhile
+            _ = SEND_TIME_LIMIT.insert(fd, time_limit);
             time_limit
         },
         |v| *v.value(),
@@ -1170,11 +1171,18 @@ pub extern "C" fn recv_time_limit(fd: c_int) -> u64 {
                 panic!("getsockopt failed: {error}");
             }
             let time_limit = get_time_limit(&tv);
-            assert!(RECV_TIME_LIMIT.insert(fd, time_limit).is_none());
+            // another thread may have cached the same value meanwhile
+            _ = RECV_TIME_LIMIT.insert(fd, time_limit);
             time_limit
         },
         |v| *v.value(),
     )
+}
+
+/// Drop the cached time limits of a descriptor that is being closed.
+pub(crate) fn forget_time_limits(fd: c_int) {
+    _ = SEND_TIME_LIMIT.remove(&fd);
+    _ = RECV_TIME_LIMIT.remove(&fd);
 }
 
 pub(crate) fn get_time_limit(tv: &libc::timeval) -> u64 {
